@@ -30,6 +30,9 @@ type Variant struct {
 	// Leaky: the program has a function which returns out of an operand position (open finding
 	// KF-vm-expr-exit-leak: leaves a slot below the return value).
 	Leaky bool `json:"leaky,omitempty"`
+	// Relay: the program has functions whose work is handed over to threads that outlive the
+	// function body (spawn chains, fan-out); the call completes when the last thread has finished.
+	Relay bool `json:"relay,omitempty"`
 }
 
 // state is the model of the globals.
@@ -42,6 +45,11 @@ type state struct {
 	last  *int64
 	cfgA  int64
 	cfgB  string
+	// window: a range stored in a global (bounds assignable)
+	winA, winB int64
+	winIncl    bool
+	// relay, relayB: written only by the last stage of a hand-over chain of threads
+	relay, relayB int64
 
 	// bookkeeping for the non-triviality measurement
 	written   map[string]bool
@@ -54,21 +62,26 @@ func newState(init string) *state {
 	case "rich":
 		seven := int64(7)
 		st.cnt, st.items, st.name, st.ratio, st.flag, st.last, st.cfgA, st.cfgB = 41, []int64{3, -1, 20}, "zoë", -0.25, true, &seven, -9, ""
+		st.winA, st.winB, st.winIncl = 8, 3, true
 	default:
 		st.cnt, st.items, st.name, st.ratio, st.flag, st.last, st.cfgA, st.cfgB = 0, nil, "init", 1.5, false, nil, 1, "x"
+		st.winA, st.winB, st.winIncl = 0, 6, false
 	}
 	return st
 }
 
 func globalsSource(init string) string {
 	if init == "rich" {
-		return "let cnt = 41;\nlet items: [int] = [3, -1, 20];\nlet name = \"zoë\";\nlet ratio = -0.25;\nlet flag = true;\nlet last: ?int = ?7;\nlet cfg = new { a: -9, b: \"\" };\n" + constGlobals
+		return "let cnt = 41;\nlet items: [int] = [3, -1, 20];\nlet name = \"zoë\";\nlet ratio = -0.25;\nlet flag = true;\nlet last: ?int = ?7;\nlet cfg = new { a: -9, b: \"\" };\nlet window = 8..=3;\n" + constGlobals
 	}
-	return "let cnt = 0;\nlet items: [int] = [];\nlet name = \"init\";\nlet ratio = 1.5;\nlet flag = false;\nlet last: ?int = none;\nlet cfg = new { a: 1, b: \"x\" };\n" + constGlobals
+	return "let cnt = 0;\nlet items: [int] = [];\nlet name = \"init\";\nlet ratio = 1.5;\nlet flag = false;\nlet last: ?int = none;\nlet cfg = new { a: 1, b: \"x\" };\nlet window = 0..6;\n" + constGlobals
 }
 
-// constGlobals are stored data no function writes (iterated in place by book_first_ge, grid_count_until).
-const constGlobals = "let book = new { rows: [5, 1, 9, 4], tag: \"b\" };\nlet grid: [[int]] = [[1, 5], [7, 2, 8], [4]];\n"
+// constGlobals are stored data no function writes (iterated in place by book_first_ge, grid_count_until,
+// plan_first_gt, spans_count_until, word_count_until), followed by the globals of the relay functions.
+const constGlobals = "let book = new { rows: [5, 1, 9, 4], tag: \"b\" };\nlet grid: [[int]] = [[1, 5], [7, 2, 8], [4]];\n" +
+	"let plan = new { span: 2..9, tag: \"p\" };\nlet spans = [0..4, 7..=3, 5..5];\nlet word = \"homescript\";\n" +
+	"let relay = 0;\nlet relay_b = 0;\n"
 
 // failure is the expected failure of a call.
 type failure struct {
@@ -99,7 +112,7 @@ type fnSpec struct {
 	// (nil: impossible in this state).
 	GenOK   func(r *fw.Rng, st *state, e env) []valuni.Val
 	GenFail func(r *fw.Rng, st *state, e env) []valuni.Val
-	// Only: restricts the spec to variants having the feature ("trigger", "spawn", "leaky").
+	// Only: restricts the spec to variants having the feature ("trigger", "spawn", "leaky", "relay").
 	Only string
 	// Tag: construct tag attached to every history that calls the function.
 	Tag string
@@ -109,6 +122,11 @@ type fnSpec struct {
 	RetAny bool
 	// Weight in the random choice (default 2).
 	Weight int
+	// Then: functions that observe what this one may have left behind; the generator often calls one
+	// of them (or the function itself again) right after it.
+	Then []string
+	// Threads: number of cores a completed call runs on besides the one of the invoked function.
+	Threads int
 }
 
 var (
@@ -1051,6 +1069,9 @@ fn fanout_fail() {
 		GenOK: func(r *fw.Rng, st *state, e env) []valuni.Val {
 			return []valuni.Val{iv(fw.Pick(r, []int64{0, 2, 3, 7, 12, 400}))}
 		}, Weight: 4})
+
+	addStoredIterSpecs(add)
+	addRelaySpecs(add)
 	return out
 }
 
@@ -1097,6 +1118,8 @@ func (v Variant) has(feature string) bool {
 		return v.Spawn
 	case "leaky":
 		return v.Leaky
+	case "relay":
+		return v.Relay
 	}
 	return false
 }
